@@ -323,6 +323,25 @@ class Fn:
             st.extend(self.succs(b))
         return seen
 
+    def return_locals(self):
+        """Locals whose value is (moved into) the return place: {0} plus, in an
+        inlined view, the return places of inlined callees that feed it."""
+        if getattr(self, "_retlocals", None) is None:
+            out = {0}
+            changed = True
+            while changed:
+                changed = False
+                for b in self.blocks:
+                    for s in b["s"]:
+                        if s[0] == "=" and not s[1][1] and s[1][0] in out and s[2][0] == "use" \
+                                and is_place_operand(s[2][1]):
+                            src = op_place(s[2][1])
+                            if not src[1] and src[0] not in out:
+                                out.add(src[0])
+                                changed = True
+            self._retlocals = out
+        return self._retlocals
+
     # ---- definitions ----------------------------------------------------
     def defs(self):
         """local -> list of (bb, idx, kind, payload) for assignments whose
@@ -901,13 +920,43 @@ class VariantFlow:
 MUTEX_RE = re.compile(r"std::sync::Mutex::<(.*)>::(try_lock|lock)$")
 
 
+_GUARD_RE = re.compile(r"std::sync::MutexGuard<'[^,]*, ")
+
+
+def _guard_payload(ty):
+    m = _GUARD_RE.search(ty or "")
+    if not m:
+        return None
+    i = m.end()
+    depth, j = 1, i
+    while j < len(ty) and depth > 0:
+        if ty[j] == "<":
+            depth += 1
+        elif ty[j] == ">":
+            depth -= 1
+        j += 1
+    return ty[i:j - 1]
+
+
 def mutex_locked_type(call):
-    """If the call is Mutex<T>::try_lock/lock, return T (type string)."""
+    """If the call acquires a Mutex<T>, return T (type string): a direct
+    Mutex<T>::try_lock/lock, or a call of a crate-local locking helper that
+    hands back a MutexGuard<'_, T> it did not receive (e.g. `lock_list(&ListRef)
+    -> MutexGuard<'_, List>`; the payload type is read at the call site, so a
+    generic helper is instantiated)."""
     full = call.res_full or ""
     m = MUTEX_RE.match(full)
     if m:
         return m.group(1)
-    return None
+    if call.is_ptr or call.dstty is None:
+        return None
+    p = _guard_payload(call.dstty)
+    if p is None or any(_guard_payload(t) is not None for t in call.argtys):
+        return None
+    g = call.fn.prog.fns.get(call.res)
+    if g is None or g.is_closure or g.generated:
+        return None
+    return p
 
 
 def guard_type_arg(ty):
